@@ -106,7 +106,7 @@ pub fn seps() -> Vec<Sep> {
     if cfg!(feature = "full") { vec![Sep::Ascii, Sep::Unicode] } else { vec![Sep::Ascii] }
 }
 
-pub const INDENT_PAIRS: &[(&str, &str)] = &[("", ""), ("> ", ""), ("", "  "), ("* ", "    "), ("你 ", "éé"), ("      ", " "), ("\x1b[1m", "\u{200b}"), ("-", "你")];
+pub const INDENT_PAIRS: &[(&str, &str)] = &[("", ""), ("> ", ""), ("", "  "), ("* ", "    "), ("你 ", "éé"), ("      ", " "), ("\x1b[1m", "\u{200b}"), ("-", "你"), ("\x1b[1m* \x1b[0m", "  ")];
 
 /// option grid (without width); `rich` adds the custom splitter and more indent pairs
 pub fn option_grid(rich: bool) -> Vec<Opts> {
